@@ -38,12 +38,21 @@ def structural():
     # block, one per output cone, removed each other from the supergate cover)
     yield "shared-subtree-under-two-outputs", {"multi-output", "shared"}, _b({"a": I, "b": I, "c": I, "d": I, "e": I, "t0": ("and", ["c", "e"]), "t1": ("and", ["b", "d"]), "t2": ("and", ["t0", "t1"]),
                                                                               "g": ("and", ["a", "t2"]), "tap": ("not", ["g"]), "u": ("and", ["g", "tap"]), "o": ("and", ["a", "u"])}, ["o", "g"])
+    yield "output-driving-only-dead-logic", {"dead", "multi-output"}, _b({"a": I, "b": I, "o1": ("and", ["a", "b"]), "t0": ("not", ["o1"]), "t1": ("or", ["t0", "a"]), "o2": ("xor", ["a", "b"])}, ["o1", "o2"])
+    # a circuit that went through limit_fanin(c, 3) before: helper names are taken, gates are still wider than 2
+    yield "already-fan-in-limited-to-3", {"names2", "prelimited"}, _b({"a": I, "b": I, "c": I, "d": I, "e": I, "g_limit_fanin_0": ("and", ["a", "b", "c"]), "g": ("and", ["g_limit_fanin_0", "d", "e"]),
+                                                                 "w_limit_fanin_0": ("xor", ["a", "d", "e"]), "w": ("xor", ["w_limit_fanin_0", "b", "c"]), "o": ("nor", ["g", "w", "c"])}, ["o", "g"])
+    yield "already-fan-in-limited-to-3-single-output", {"names2", "prelimited"}, _b({"a": I, "b": I, "c": I, "d": I, "w_limit_fanin_0": ("xor", ["a", "b", "d"]), "w": ("xor", ["w_limit_fanin_0", "c", "d"]),
+                                                                               "o": ("nor", ["w", "c"])}, ["o"])
     yield "heavy-fanout-net", {"fanout"}, _b({"a": I, "b": I, "s": ("xor", ["a", "b"]), "l1": ("not", ["s"]), "l2": ("buf", ["s"]), "l3": ("and", ["s", "a"]), "l4": ("or", ["s", "b"]), "l5": ("nand", ["s", "l2"]),
                                               "l6": ("xnor", ["s", "l1", "l2"]), "o": ("or", ["l1", "l3", "l4", "l5", "l6"])}, ["o", "l6"])
     yield "reconvergence-through-inverters", {"reconv"}, _b({"a": I, "b": I, "n": ("not", ["a"]), "p": ("and", ["a", "b"]), "q": ("and", ["n", "b"]), "o": ("or", ["p", "q"]), "z": ("and", ["a", "n"])}, ["o", "z"])
     yield "buffer-and-inverter-chains", {"chains"}, _b({"a": I, "b": I, "c": I, "g": ("and", ["a", "b", "c"]), "n1": ("not", ["g"]), "n2": ("not", ["n1"]), "b1": ("buf", ["g"]), "n3": ("not", ["b1"]),
                                                        "b2": ("buf", ["n3"]), "n4": ("not", ["b2"]), "n5": ("not", ["n4"]), "o": ("or", ["n2", "n5"])}, ["o", "n2", "n3", "b2"])
     yield "chain-declared-downstream-first", {"chains"}, _b({"o": ("xor", ["n3", "a"]), "n3": ("not", ["n2"]), "n2": ("buf", ["n1"]), "n1": ("not", ["g"]), "g": ("nor", ["a", "b"]), "a": I, "b": I}, ["o", "n2"])
+    # distinct operand sets whose names join to one string ({a_b, c} / {a, b_c}), under gates of one type - and exact duplicates
+    yield "operand-names-joining-ambiguously", {"names2", "shared"}, _b({"a": I, "b_c": I, "a_b": I, "c": I, "g1": ("and", ["a_b", "c"]), "g2": ("and", ["a", "b_c"]), "x1": ("xor", ["a_b", "c"]),
+                                                                        "x2": ("xor", ["a", "b_c"]), "d1": ("nor", ["a", "c"]), "d2": ("nor", ["c", "a"]), "o": ("or", ["g1", "x2", "d1"])}, ["o", "g2", "x1", "d2"])
     yield "x-constant", {"x"}, _b({"a": I, "u": ("x", []), "g": ("or", ["a", "u"])}, ["g"])
 
 
